@@ -483,6 +483,15 @@ theorem group_take_one_keys_unique (resolve : Model.Rel.Src → Model.Rel.Table)
   have h := groupTake_first_keys resolve t by_ ks
   exact ⟨h, h ▸ Lemmas.AggPerm.nodup_dedup _⟩
 
+/-- why the repaired guard of `preprocess::distinct` is right when the partition is NARROWER than the frame at the take: if nothing
+later needs a column outside of the partition, the SELECT projects the partition columns only, and `SELECT DISTINCT <partition>` is the
+projection of the group-take result onto its key columns - for tables of any size, whichever row each group keeps -/
+theorem distinct_over_the_partition_is_the_group_take_projected (resolve : Model.Rel.Src → Model.Rel.Table) (t : Model.Rel.Table)
+    (by_ : List Nat) (ks : List Model.Rel.SortKey) :
+    Model.Rel.dedup (t.rows.map (Model.Rel.keyOf by_)) =
+      (Model.Rel.step resolve t (.groupTake by_ ks none (some 1))).rows.map fun r => r.take by_.length :=
+  (group_take_one_keys_unique resolve t by_ ks).1.symm
+
 /-- ... and the restriction to ALL columns is necessary: grouping by the first of two columns keeps one row, DISTINCT two -/
 theorem distinct_needs_all_columns_counterexample :
     (Model.Rel.step (fun _ => default) { rows := [[.int 1, .int 1], [.int 1, .int 2]] } (.groupTake [0] [] none (some 1))).rows.length = 1 ∧
